@@ -1,10 +1,10 @@
 /-
   Driver for the `uf` family (C13, C03): protocol/thrift/unknownfields.
     uf convert <hex>   => ok <tree> | err <class> | PANIC <class>        ConvertUnknownFields
-    uf rt <hex>        => ok <hex'> <len> | err … | PANIC …              Convert, Length, Write(buf of that length)
-    uf write <tree>    => ok <hex> | err … | PANIC …                     WriteUnknownFields
-    uf len <tree>      => ok <n> | err … | PANIC …                       UnknownFieldsLength
-    uf wrt <tree>      => ok <tree'> | err … | PANIC …                   Length, Write, Convert
+    uf rt <hex>        => ok <hex'> <len> | err … | PANIC … (convert) | WPANIC … (length/write)   Convert, Length, Write(buf of that length)
+    uf write <tree>    => ok <hex> <length|-> | err … | PANIC …          WriteUnknownFields (+ the computed length)
+    uf len <tree>      => ok <n> <written|-> | err … | PANIC …           UnknownFieldsLength (+ bytes written)
+    uf wrt <tree>      => ok <tree'> <length> <written> | err … | PANIC …  Length, Write, Convert
   tree text (one token):
     Fs := '[' (F (',' F)*)? ']'
     F  := id ':' typ ':' kt ':' vt ':' V         id signed decimal (int16), typ/kt/vt 0..255 (the raw byte)
@@ -169,11 +169,21 @@ def mRt (b : Bytes) : String :=
   uoutStr (fun (p : Bytes × Nat) => toHex p.1 ++ " " ++ toString p.2)
     ((convertUF b).bind fun fs => (lenUFs MD fs).bind fun l => (writeUFs MD fs).bind fun bs => .ok (bs, l))
 
-def mWrite (fs : List (UF drvDepth)) : String := uoutStr toHex (writeUFs drvDepth fs)
-def mLen (fs : List (UF drvDepth)) : String := uoutStr (fun (n : Nat) => toString n) (lenUFs drvDepth fs)
+def optNat {α : Type} (f : α → Nat) : UOut α → String
+  | .ok a => toString (f a)
+  | _ => "-"
+
+/-- ok <hex written> <length | -> -/
+def mWrite (fs : List (UF drvDepth)) : String :=
+  uoutStr (fun bs => toHex bs ++ " " ++ optNat id (lenUFs drvDepth fs)) (writeUFs drvDepth fs)
+/-- ok <length> <bytes written | -> -/
+def mLen (fs : List (UF drvDepth)) : String :=
+  uoutStr (fun (n : Nat) => toString n ++ " " ++ optNat List.length (writeUFs drvDepth fs)) (lenUFs drvDepth fs)
+/-- ok <tree converted back> <length> <bytes written> -/
 def mWrt (fs : List (UF drvDepth)) : String :=
-  uoutStr (showUFs MD)
-    ((lenUFs drvDepth fs).bind fun _ => (writeUFs drvDepth fs).bind fun bs => convertUF bs)
+  uoutStr (fun (p : List (UF MD) × Nat × Nat) => showUFs MD p.1 ++ " " ++ toString p.2.1 ++ " " ++ toString p.2.2)
+    ((lenUFs drvDepth fs).bind fun n => (writeUFs drvDepth fs).bind fun bs =>
+      (convertUF bs).bind fun back => .ok (back, n, bs.length))
 
 /-! ## spec column (evaluated on the implementation's result) -/
 
@@ -203,6 +213,7 @@ def verdictConvert (b : Bytes) (res : String) : String :=
 def verdictRt (b : Bytes) (res : String) : String :=
   match res.splitOn " " with
   | "PANIC" :: _ => "bad:C03:panic"
+  | "WPANIC" :: _ => "bad:C13:write-panics-with-advertised-length"   -- Length/Write on the converted tree
   | "OOB" :: _ => "bad:C03:oob"
   | ["ok", h, l] =>
     match parseHex h, l.toNat? with
@@ -215,15 +226,36 @@ def verdictRt (b : Bytes) (res : String) : String :=
   | "err" :: _ => if ufEncFields 64 b then "bad:C13:rejected-valid" else "na"
   | _ => "bad:protocol"
 
-def verdictTreeOp (op t res : String) : String :=
-  let dom := treeDomain t
+/-- verdict of the tree entry points. `fs` is the parsed tree; for a well-typed tree (any nesting) the spec
+    encoding `ufSpecEncs` fixes the bytes and therefore the length: the computed length, the number of
+    bytes written and the spec encoding's length must all agree (`bad:C13:length`), the bytes written must
+    be the spec encoding, and for nesting ≤ 64 the tree must come back unchanged. -/
+def verdictTreeOp (op t : String) (fs : List (UF drvDepth)) (res : String) : String :=
+  let wtAny := wts drvDepth fs
+  let dom64 := treeDomain t
+  let want := ufSpecEncs drvDepth fs
+  let lenOk (n : String) : Bool := n.toNat? == some want.length
   match res.splitOn " " with
-  | "PANIC" :: _ => if dom then "bad:C13:" ++ op ++ "-panics-on-well-typed" else "na"
-  | "err" :: _ => if dom then "bad:C13:" ++ op ++ "-rejects-well-typed" else "na"
-  | ["ok", r] =>
-    if !dom then "na"
-    else if op == "wrt" then (if r == t then "ok" else "bad:C13:tree-roundtrip")
-    else "ok"        -- write / len on their own: the value is compared with the model column
+  | "PANIC" :: _ =>
+    if (op == "wrt" && dom64) || (op != "wrt" && wtAny) then "bad:C13:" ++ op ++ "-panics-on-well-typed" else "na"
+  | "err" :: _ =>
+    if (op == "wrt" && dom64) || (op != "wrt" && wtAny) then "bad:C13:" ++ op ++ "-rejects-well-typed" else "na"
+  | ["ok", a, b] =>
+    if !wtAny then "na"
+    else if op == "len" then
+      (if b == "-" then "bad:C13:write-fails-on-well-typed"
+       else if a != b || !lenOk a then "bad:C13:length" else "ok")
+    else if op == "write" then
+      (if b == "-" then "bad:C13:length-fails-on-well-typed"
+       else if parseHex a != some want then "bad:C13:write-bytes"
+       else if !lenOk b then "bad:C13:length" else "ok")
+    else "bad:protocol"
+  | ["ok", r, n, w] =>
+    if op != "wrt" then "bad:protocol"
+    else if !wtAny then "na"
+    else if n != w || !lenOk n then "bad:C13:length"
+    else if dom64 && r != t then "bad:C13:tree-roundtrip"
+    else "ok"
   | _ => "bad:protocol"
 
 def handleUf (args : List String) (impl : String) : String × String :=
@@ -239,9 +271,9 @@ def handleUf (args : List String) (impl : String) : String × String :=
   | ["uf", op, t] =>
     match parseUFs drvDepth t with
     | some fs =>
-      if op == "write" then (mWrite fs, verdictTreeOp op t impl)
-      else if op == "len" then (mLen fs, verdictTreeOp op t impl)
-      else if op == "wrt" then (mWrt fs, verdictTreeOp op t impl)
+      if op == "write" then (mWrite fs, verdictTreeOp op t fs impl)
+      else if op == "len" then (mLen fs, verdictTreeOp op t fs impl)
+      else if op == "wrt" then (mWrt fs, verdictTreeOp op t fs impl)
       else ("bad-op", "na")
     | none => ("bad-op", "na")
   | _ => ("bad-op", "na")
